@@ -416,6 +416,27 @@ func runC02(r *mc.Run) {
 		{"file-T,get-collateral+crl", &ccpb.RootOfTrust{CabundlePaths: []string{fT}, GetCollateral: true, CheckCrl: true}, []bool{true, false}},
 		{"file-T,get-collateral", &ccpb.RootOfTrust{CabundlePaths: []string{fT}, GetCollateral: true}, []bool{true, false}},
 	}
+	{
+		// inline bundles that do not end in a newline (the text of one entry must not run into the next one's)
+		nl := func(c *x509.Certificate) string { return string(world.PEM(c)) }
+		nonl := func(c *x509.Certificate) string { return strings.TrimRight(string(world.PEM(c)), "\r\n") }
+		cfgs = append(cfgs, []struct {
+			name  string
+			rot   *ccpb.RootOfTrust
+			lists []bool
+		}{
+			{"inline-T(no-newline),F", &ccpb.RootOfTrust{Cabundles: []string{nonl(T.Root), nl(F.Root)}}, []bool{true, true}},
+			{"inline-F(no-newline),T", &ccpb.RootOfTrust{Cabundles: []string{nonl(F.Root), nl(T.Root)}}, []bool{true, true}},
+			{"inline-T(no-newline),F(no-newline)", &ccpb.RootOfTrust{Cabundles: []string{nonl(T.Root), nonl(F.Root)}}, []bool{true, true}},
+			{"inline-U(no-newline),T(no-newline),F", &ccpb.RootOfTrust{Cabundles: []string{nonl(U.Root), nonl(T.Root), nl(F.Root)}}, []bool{true, true}},
+			{"inline-T(no-newline)-only", &ccpb.RootOfTrust{Cabundles: []string{nonl(T.Root)}}, []bool{true, false}},
+			{"file-F(no-newline)+inline-T(no-newline)", &ccpb.RootOfTrust{CabundlePaths: []string{wf("F-nonl.pem", []byte(nonl(F.Root)))}, Cabundles: []string{nonl(T.Root)}}, []bool{true, true}},
+			{"files-T(no-newline),F(no-newline)", &ccpb.RootOfTrust{CabundlePaths: []string{wf("T-nonl.pem", []byte(nonl(T.Root))), wf("F-nonl2.pem", []byte(nonl(F.Root)))}}, []bool{true, true}},
+			{"inline-T(crlf),F", &ccpb.RootOfTrust{Cabundles: []string{strings.ReplaceAll(nl(T.Root), "\n", "\r\n"), nl(F.Root)}}, []bool{true, true}},
+			// every combination of the two switches is carried as given (what they mean is C05's / C12's subject)
+			{"file-T,check-crl-only", &ccpb.RootOfTrust{CabundlePaths: []string{fT}, CheckCrl: true}, nil},
+		}...)
+	}
 	// other issues of T's root (same name, same key): one that expired before the verification time, one not yet
 	// valid, one whose path length forbids the intermediate. Listed next to the current issue — before or after it,
 	// in one bundle or spread over bundles — they take nothing away: the configuration lists T's usable root.
@@ -492,6 +513,10 @@ func runC02(r *mc.Run) {
 			case world.IsPanic(cerr):
 				r.Violate("config:panic", id, "RootOfTrustToOptions crashes: "+errStr(cerr), nil)
 				out = "panic"
+			case cerr != nil && (strings.Contains(cfg.name, "no-newline") || strings.Contains(cfg.name, "crlf")):
+				// every bundle of these configurations holds a well-formed certificate; how an entry ends is immaterial
+				r.Violate("config:refused-although-every-bundle-holds-a-certificate", id, "a configuration whose bundles each hold a certificate is refused: "+errStr(cerr), nil)
+				out = "config-error!"
 			case cerr == nil && opts != nil:
 				if opts.GetCollateral != cfg.rot.GetCollateral || opts.CheckRevocations != cfg.rot.CheckCrl {
 					r.Violate("config:flags-not-carried", id, "get_collateral / check_crl of the configuration are not carried into the options", nil)
